@@ -5,6 +5,7 @@ import gen_c17_csrc as CS
 import gen_c17_cfg as CFG
 import gen_c17_cgen as CG
 import gen_c17_decl as DCL
+import gen_c17_inl as INL
 
 MIX_OPT_CLASSES = True
 def debug_ok(src):
@@ -365,7 +366,7 @@ class Scen:
             self.lines.append('scan ' + hexs(stress_module(rng, n, rng.choice([20, 60, 150]))))
             self._new_func('f' + n, 'stress')
             self.kinds.append('stress')
-        elif k < 0.66:
+        elif k < 0.65:
             # a module of declaration histories: export / forward before and after the definitions, repeated, in every
             # order, imports repeated, names used while only declared -- as MIR text or through the construction API
             n = self.name()
@@ -379,7 +380,15 @@ class Scen:
                 self.kinds.append('decl-api')
             self._new_func('f' + n, 'decl')
             self.kinds.append('decl-' + (shape or 'random'))
-        elif k < 0.74:
+        elif k < 0.75:
+            # callees that MIR_link inlines (`inline` insns and small callees of plain calls): alloca at the top / after a
+            # label, branch or call / of non-constant size / none, ret last / in the middle / several rets, called several
+            # times, nested, recursive -- every arm of process_inlines' insn bookkeeping (tools/gen_c17_inl.py)
+            n = self.name()
+            self.lines.append('scan ' + hexs(INL.inl_module(rng, n)))
+            self._new_func('f' + n, 'inl')
+            self.kinds.append('inline-shapes')
+        elif k < 0.82:
             # generated functions with arbitrary control-flow graphs (irreducible / nested / overlapping loops, switch,
             # indirect jumps, unreachable blocks): the generator's CFG, loop-tree and SSA code at every level
             n = self.name()
@@ -387,7 +396,7 @@ class Scen:
             self.lines.append('scan ' + hexs(CFG.cfg_module(rng, n, shape)))
             self._new_func('f' + n, 'cfg')
             self.kinds.append('cfg-' + (shape or 'random'))
-        elif k < 0.85:
+        elif k < 0.90:
             i = rng.randrange(len(MIR_POOL))
             n = self.name()
             self.lines.append('scan ' + hexs(MIR_POOL[i].replace('@N@', n)))
@@ -630,6 +639,14 @@ def fixed_scenarios():
                 x = nm()
                 L.append('scan ' + hexs(CFG.cfg_module(_r.Random(1000 + 10 * len(out) + j), x, shape)))
                 fs.append('f' + x)
+            # inlined callees: one with a non-top alloca and code after its ret (inlined in place between BSTART/BEND),
+            # two random ones
+            for j in range(3):
+                x = nm()
+                r_ = _r.Random(5000 + 10 * len(out) + j)
+                force = (r_.choice(INL.NONTOP), r_.choice(INL.LAYOUT[1:]), ['inline', 'call'][len(out) % 2]) if j == 0 else None
+                L.append('scan ' + hexs(INL.inl_module(r_, x, force=force, ncallees=1 if force else None)))
+                fs.append('f' + x)
             for j in range(3):
                 x = nm()
                 L.append('c2m u%s.c %s' % (x, hexs(CG.c_unit(_r.Random(2000 + 10 * len(out) + j))[1].replace('@N@', x))))
@@ -668,6 +685,17 @@ def fixed_scenarios():
     fs.append('f' + x)
     L += ['output', 'load', 'gen_init', 'opt 1', 'link gen'] + ['call %s 7' % f for f in fs] + ['gen_finish', 'finish']
     out.append((['0 ' + l for l in L], dict(ctxs=1, kinds=['fixed-decl-exhaustive'])))
+    # EVERY (alloca kind x ret layout x call kind) of an inlined callee as a module of its own (tools/gen_c17_inl.py),
+    # interpreted and generated
+    for tail in (['load', 'link interp'], ['load', 'gen_init', 'opt 2', 'link gen']):
+        L = ['init']
+        fs = []
+        for txt, f in INL.exhaustive_inl_modules(nm()):
+            L.append('scan ' + hexs(txt))
+            fs.append(f)
+        L += tail + [('interp %s %d' if 'link interp' in tail else 'call %s %d') % (f, a) for f in fs for a in (2, 7, 40)]
+        L += (['gen_finish'] if 'gen_init' in tail else []) + ['finish']
+        out.append((['0 ' + l for l in L], dict(ctxs=1, kinds=['fixed-inline-exhaustive'])))
     # binary round trip into a second context
     x = nm()
     L = ['0 init', '0 scan ' + hexs(MIR_POOL[1].replace('@N@', x)), '0 api 901 2', '0 write', '1 init', '1 take 0',
